@@ -2,6 +2,7 @@
 # usage: fileseed.sh <name> <Cxx> <outdir> "<needs>" "<ran>" "<caught-by>"
 N=$1; P=$2; O=$3
 mkdir -p /verif/seeded/$N && cp $O/patch.diff /verif/seeded/$N/ && for f in $O/*; do case "$f" in *patch.diff) ;; *) cp -r "$f" /verif/seeded/$N/ ;; esac; done
+[ -f $O/meta.json ] && cp $O/meta.json /verif/seeded/$N/agent_meta.json
 python3 - "$N" "$P" "$4" "$5" "$6" <<'PY'
 import json,sys
 n,p,needs,ran,caught=sys.argv[1:6]
